@@ -130,21 +130,25 @@ def escV (a : Bytes) (pos off : Nat) : Option (Nat × Nat) :=
         (utf8LenV r.1).map fun n =>
           (off + n, pos + off + r.2)                    -- LBB0_25: add r14,r15 ; add r14,rsi ; rax = r13 + 6 (+ 12)
 
-/-- The loop of V.  `pos` = `r13` = `rax` (index into `a`), `dlen` = `r14`; one unit of fuel per iteration.
-    The length limit is tested at LBB0_29 only, i.e. once per iteration, on the *next* window position. -/
+/-- One iteration of the loop of V, the window at `pos` already classified (`c = winCase a pos`, LBB0_2).
+    `pos` = `r13` = `rax` (index into `a`), `dlen` = `r14`; `loop` = the jump back to LBB0_2.
+    The length limit is tested at LBB0_29 only, i.e. once per iteration, on the *next* window position.
+    (The classification is an argument, and the result of `escV` goes through `Option.bind`, so that no `match` in the
+    loop has a discriminant that a proof checker could be tempted to evaluate - cf. the pitfall noted in `Proofs/StrLex.lean`.) -/
+def validateIter (a : Bytes) (start lim : Nat) (loop : Nat → Nat → Option (Nat × Nat)) (pos dlen : Nat) :
+    WinCase → Option (Nat × Nat)
+  | .quote t =>                                         -- LBB0_3: add rsi,rax ; mov [rdx],rsi ; add r14,rax ; mov [rcx],r14
+    some ((pos - start) + t, dlen + t)
+  | .advance =>                                         -- LBB0_28: add r13,32 ; add r14,32 ; LBB0_29: cmp rsi,r11 ; jb LBB0_2
+    if (pos + 32) - start < lim then loop (pos + 32) (dlen + 32) else none
+  | .esc off =>
+    (escV a pos off).bind fun r =>                      -- LBB0_29: mov rsi,rax ; sub rsi,rdi ; cmp rsi,r11 ; jb LBB0_2
+      if r.2 - start < lim then loop r.2 (dlen + r.1) else none
+
+/-- The loop of V; one unit of fuel per iteration. -/
 def validateWinGo (a : Bytes) (start lim : Nat) : (fuel : Nat) → (pos dlen : Nat) → Option (Nat × Nat)
   | 0, _, _ => none
-  | fuel + 1, pos, dlen =>
-    match winCase a pos with
-    | .quote t =>                                       -- LBB0_3: add rsi,rax ; mov [rdx],rsi ; add r14,rax ; mov [rcx],r14
-      some ((pos - start) + t, dlen + t)
-    | .advance =>                                       -- LBB0_28: add r13,32 ; add r14,32 ; LBB0_29: cmp rsi,r11 ; jb LBB0_2
-      if (pos + 32) - start < lim then validateWinGo a start lim fuel (pos + 32) (dlen + 32) else none
-    | .esc off =>
-      match escV a pos off with
-      | none => none
-      | some (n, pos') =>                               -- LBB0_29: mov rsi,rax ; sub rsi,rdi ; cmp rsi,r11 ; jb LBB0_2
-        if pos' - start < lim then validateWinGo a start lim fuel pos' (dlen + n) else none
+  | fuel + 1, pos, dlen => validateIter a start lim (validateWinGo a start lim fuel) pos dlen (winCase a pos)
 
 /-- `_parse_string_validate_only(src = &a[start], &lim, &str_length, &dst_length)`: `some (str_length, dst_length)` when
     the routine returns 1, `none` when it returns 0 (`mov r11,[rsi]; test r11,r11; je LBB0_30` is the `lim = 0` exit).
@@ -172,22 +176,27 @@ def escC (a : Bytes) (pos off : Nat) : Option (List UInt8 × Nat) :=
         (encodeUTF8 r.1).map fun bs =>                  -- LBB0_20: add rsi,r11 ; stores ; add rsi,{1,2,3,4}
           (bs, pos + off + r.2)                         --   r13 = rdi + 6 (+ 12)
 
-/-- The loop of C.  `pos` = `rdi` = `r13`; `out` = the bytes `dst[0, rsi - dst)`.
-    Every iteration begins (prologue, LBB0_29) with `vmovdqu ymm,[r13]; vmovdqu [rsi],ymm`: the whole window is stored at
-    the current end of the output (`dst` below), *then* the output pointer moves by `t`, 32 or `off + (encoded length)`
-    only, so the next store overwrites whatever lies beyond.  We model the net content `dst[0, new rsi - dst)`: the
-    stored window cut at the new end (`extract`), plus the bytes the escape code stored. -/
+/-- `vmovdqu ymm,[r13] ; vmovdqu [rsi],ymm`: the whole window is stored at the current end of the output -/
+def storeWin (a : Bytes) (pos : Nat) (out : Bytes) : Bytes := out ++ winBytes a pos 32
+
+/-- One iteration of the loop of C, the window at `pos` already classified (`c = winCase a pos`).
+    `pos` = `rdi` = `r13`; `out` = the bytes `dst[0, rsi - dst)`; `loop` = the jump to LBB0_29.
+    Every iteration begins (prologue, LBB0_29) with `storeWin`; *then* the output pointer moves by `t`, 32 or
+    `off + (encoded length)` only, so the next store overwrites whatever lies beyond.  We model the net content
+    `dst[0, new rsi - dst)`: the stored window cut at the new end (`extract`), plus the bytes the escape code stored. -/
+def copyIter (a : Bytes) (loop : Nat → Bytes → Option Bytes) (pos : Nat) (out : Bytes) : WinCase → Option Bytes
+  | .quote t =>                                         -- LBB0_1: tzcnt rax,r14 ; add rax,rsi ; mov [rdx],rax
+    some ((storeWin a pos out).extract 0 (out.size + t))
+  | .advance =>                                         -- LBB0_8: add rdi,32 ; add rsi,32
+    loop (pos + 32) (storeWin a pos out)
+  | .esc off =>
+    (escC a pos off).bind fun r =>
+      loop r.2 ((storeWin a pos out).extract 0 (out.size + off) ++ r.1.toArray)
+
+/-- The loop of C; one unit of fuel per iteration. -/
 def copyWinGo (a : Bytes) : (fuel : Nat) → (pos : Nat) → (out : Bytes) → Option Bytes
   | 0, _, _ => none
-  | fuel + 1, pos, out =>
-    let dst := out ++ winBytes a pos 32                 -- vmovdqu [rsi], ymm2
-    match winCase a pos with
-    | .quote t => some (dst.extract 0 (out.size + t))   -- LBB0_1: tzcnt rax,r14 ; add rax,rsi ; mov [rdx],rax
-    | .advance => copyWinGo a fuel (pos + 32) dst       -- LBB0_8: add rdi,32 ; add rsi,32
-    | .esc off =>
-      match escC a pos off with
-      | none => none
-      | some (bs, pos') => copyWinGo a fuel pos' (dst.extract 0 (out.size + off) ++ bs.toArray)
+  | fuel + 1, pos, out => copyIter a (copyWinGo a fuel) pos out (winCase a pos)
 
 /-- `_parse_string(src = &a[start], dst, &string_buf_loc)`: the bytes `dst[0, string_buf_loc - dst)` when the routine
     returns 1, `none` when it returns 0 (then `string_buf_loc` is not written).  The routine has no limit argument.
